@@ -32,6 +32,7 @@ open Mdpax
 #print axioms matrix_backup_eq
 #print axioms telescope
 #print axioms ravel2_inj
+#print axioms ravel2_lt
 #print axioms ravel2_surj
 #print axioms ravel3_inj
 #print axioms ravel3_surj
